@@ -23,10 +23,10 @@ def queries(tier):
         qs.append(Query('ranking[opt=%d]' % opt, 'C04_cost.cpp', 'harness_ranking', tus=TUS, defines={'OPT': opt}, unwind=4, timeout=to,
                         bound='every triple of solutions, objective kind %d' % opt))
     for opt in (1, 2):
-        qs.append(Query('objective[opt=%d]' % opt, 'C04_cost.cpp', 'harness_objective', tus=TUS, defines={'OPT': opt}, unwind=4, timeout=to,
+        qs.append(Query('objective[opt=%d]' % opt, 'C04_cost.cpp', 'harness_objective', tus=TUS, defines={'OPT': opt}, unwind=4, timeout=to * 2, backends=('cadical', 'kissat'),
                         bound='every non-NaN cost pair and threshold'))
     for ns in ([0, 1, 2, 4] if tier == 'quick' else [0, 1, 2, 3, 4, 5, 6, 8]):
-        qs.append(Query('path_cost[n=%d]' % ns, 'C04_cost.cpp', 'harness_path_cost', tus=TUS, defines={'NS': ns}, unwind=ns + 3, timeout=to,
+        qs.append(Query('path_cost[n=%d]' % ns, 'C04_cost.cpp', 'harness_path_cost', tus=TUS, defines={'NS': ns}, unwind=ns * ns + 4, timeout=to,
                         uf=('fadd',), bound='path of %d states, symbolic cost/distance tables' % ns,
                         note='fadd abstracted by an uninterpreted function (the claim is equality with the ordered fold)'))
     for ns in ([2, 3] if tier == 'quick' else [2, 3, 4]):
